@@ -168,6 +168,7 @@ func c05ListAtEdge(p m.Packet) bool {
 }
 
 func TestC05(t *testing.T) {
+	defer harness.Uncaught(t)
 	harness.RapidCheck(t, harness.Scale(8000, 60000), 5, func(rt *rapid.T) {
 		p, unaligned := genC05Value(rt)
 		c := valCase{P: p}
